@@ -110,12 +110,25 @@ const (
 
 func perr(op, p string, err error) error { return &fs.PathError{Op: op, Path: p, Err: err} }
 
+// splitAt: a name resolved from a directory handle (os.Root walks it component by component with openat)
+// is not subject to PATH_MAX, only its components to NAME_MAX; a path handed to a system call as one
+// string is (checked against the real thing: 100 nested 48-character directories under an os.Root work,
+// filepath.WalkDir over the same tree fails with ENAMETOOLONG at depth 85).
+func splitAt(baseAbs, p string) ([]string, error) {
+	if baseAbs == "/" {
+		return splitAbs(p)
+	}
+	return splitPath(p, false)
+}
+
 // splitAbs cleans an absolute (or relative-to-/) path into components.
-func splitAbs(p string) ([]string, error) {
+func splitAbs(p string) ([]string, error) { return splitPath(p, true) }
+
+func splitPath(p string, limited bool) ([]string, error) {
 	if p == "" {
 		return nil, syscall.ENOENT
 	}
-	if len(p) >= pathMax {
+	if limited && len(p) >= pathMax {
 		return nil, syscall.ENAMETOOLONG
 	}
 	if strings.IndexByte(p, 0) >= 0 {
